@@ -1,3 +1,94 @@
-(* C10 — statements are added when the corresponding facts file lands *)
-From SV Require Import Bytes Client Transport Server.
-Theorem C10_placeholder : True. Proof. exact I. Qed.
+(* C10 — no script command before authentication; no credentials before TLS.
+
+   Model: ms/Client.v (every public operation; [auth_required] = the authentication_required
+   decorator; connect/starttls/authenticate; ghost event GAuthOk emitted exactly where
+   `authenticated` is set after an AUTHENTICATE exchange that ended with OK), ms/Transport.v (the
+   write log tagged with connection generation and TLS flag).  Proofs: ms/AuthFacts.v.
+   Generated obligation: gen/Static.v is the inventory of managesieve.Client methods produced by
+   tools/gen_static.py from the working tree on every run; C10_static re-checks it.
+   Not carried by the model: the TLS handshake itself (an oracle outcome of the peer). *)
+From Coq Require Import String.
+From Coq Require Import List NArith Bool.
+From SV Require Import Bytes Client Transport Session Server AuthFacts Static.
+Import ListNotations.
+
+(* a script-management call on an unauthenticated client raises Error and writes nothing *)
+Theorem C10_refused :
+  forall fuel o st, c_auth st = false -> is_script_op o = true -> run_op fuel o st = Fail ExAuthReq st.
+Proof. exact AuthFacts.guarded_refuses. Qed.
+Print Assumptions C10_refused.
+
+(* Full statement, all histories, all peers, all segmentations: in the write log of any sequence
+   of public operations from a fresh client, every script-management command written on
+   connection c is preceded by "AUTHENTICATE ended with OK" on the same connection c, with no
+   new connection in between. *)
+Theorem C10_trace_safe :
+  forall (S : Type) (react : S -> bytes -> S * bytes) (on_connect on_tls : S -> option (S * bytes))
+         (seg : nat -> bytes -> list bytes) (fuel : nat) (ops : list op) (w0 : world S),
+    w_log S w0 = [] ->
+    forall after c tls d before,
+      w_log S (snd (run_ops S react on_connect on_tls seg fuel ops c_init w0))
+      = after ++ WSend c tls d :: before ->
+      is_script_send d = true ->
+      exists l1 l2, before = l1 ++ WMark c GAuthOk :: l2 /\
+                    forallb (fun e => negb (is_wconnect e)) l1 = true.
+Proof. exact AuthFacts.trace_safe_explicit. Qed.
+Print Assumptions C10_trace_safe.
+
+(* with STARTTLS requested, every AUTHENTICATE of the call is written under TLS (a refused,
+   failed or unavailable STARTTLS therefore ends the call without credentials on the wire) *)
+Theorem C10_tls_first :
+  forall (S : Type) (react : S -> bytes -> S * bytes) (on_connect on_tls : S -> option (S * bytes))
+         (seg : nat -> bytes -> list bytes) fuel l p z m st (w : world S) new,
+    w_log S (snd (interp S react on_connect on_tls seg (connect fuel l p z true m st) w)) = new ++ w_log S w ->
+    forall c tls d, In (WSend c tls d) new -> is_auth_send d = true -> tls = true.
+Proof. exact AuthFacts.connect_tls_first. Qed.
+Print Assumptions C10_tls_first.
+
+(* ... and nothing but the STARTTLS command itself is written in clear (covers the LOGIN
+   continuation lines that carry the credentials) *)
+Theorem C10_only_starttls_in_clear :
+  forall (S : Type) (react : S -> bytes -> S * bytes) (on_connect on_tls : S -> option (S * bytes))
+         (seg : nat -> bytes -> list bytes) fuel l p z m st (w : world S) new,
+    w_log S (snd (interp S react on_connect on_tls seg (connect fuel l p z true m st) w)) = new ++ w_log S w ->
+    forall c tls d, In (WSend c tls d) new -> tls = true \/ d = bs "STARTTLS" ++ CRLF.
+Proof. exact AuthFacts.connect_tls_only_starttls_in_clear. Qed.
+Print Assumptions C10_only_starttls_in_clear.
+
+(* the mechanism is chosen from capabilities read after the handshake: starttls resets the
+   capability table before reading the new one (definitional in the model) *)
+Example C10_caps_reset :
+  forall fuel st k, has_cap (bs "STARTTLS") st = true ->
+    exists p, starttls fuel st k = Send (command_bytes (bs "STARTTLS") []) p.
+Proof. intros. unfold starttls. rewrite H. cbn. eexists. reflexivity. Qed.
+
+(* ---- static part, over the inventory regenerated from managesieve.py on every run ---- *)
+Open Scope string_scope.
+Definition script_verb_names : list string :=
+  ["HAVESPACE"; "LISTSCRIPTS"; "GETSCRIPT"; "PUTSCRIPT"; "CHECKSCRIPT"; "DELETESCRIPT"; "RENAMESCRIPT"; "SETACTIVE"].
+Definition smem (s : string) (l : list string) : bool := existsb (String.eqb s) l.
+
+Definition method_ok (m : method) : bool :=
+  (* a method that passes a script verb to __send_command carries the decorator *)
+  (if existsb (fun v => smem v script_verb_names) (m_verbs m)
+   then smem "authentication_required" (m_decorators m) else true)
+  (* only __send_command touches the socket's send methods *)
+  && (if m_raw_send m then String.eqb (m_name m) "__send_command" else true)
+  (* a computed command name is only used by the DIGEST-MD5 exchange *)
+  && (if m_nonliteral_verb m then String.eqb (m_name m) "_digest_md5_authentication" else true)
+  (* authenticated := True only in __authenticate; := False only in __init__ / connect *)
+  && forallb (fun v => match v with
+                       | Some true => String.eqb (m_name m) "__authenticate"
+                       | Some false => smem (m_name m) ["__init__"; "connect"]
+                       | None => false
+                       end) (m_sets_authenticated m).
+
+Theorem C10_static : forallb method_ok client_methods = true.
+Proof. vm_compute. reflexivity. Qed.
+
+(* connect() really resets the flag (the repaired defect) *)
+Theorem C10_static_connect_resets :
+  existsb (fun m => String.eqb (m_name m) "connect" && smem "__authenticate" (m_calls m)
+                    && existsb (fun v => match v with Some false => true | _ => false end)
+                               (m_sets_authenticated m)) client_methods = true.
+Proof. vm_compute. reflexivity. Qed.
